@@ -67,6 +67,17 @@ PROPS = {
         assumptions=['consumers are identified by their registration key (the sentinel object)'],
         partial=[],
     ),
+    'C12': dict(
+        gen=['Resources'], props=['C12'], model=['Prim/Resources', 'Machine/Run', 'Judge/Judges'], harness='c12',
+        trusted_base=KERNEL_TB + MACHINE_TB + [
+            'shape templates (exact AST match, else broken obligation): BorrowedResources.__aenter__/__aexit__, ClaimedResources.__aenter__, '
+            '__remove_resources__/__insert_resources__, Tracked.set, _resource_level.__comparison_op__',
+        ],
+        assumptions=['conservation is proved per component (scalar model); the vector availability guard is what never_negative uses',
+                     'amounts on an integer grid'],
+        partial=['returned_on_every_exit_partial (full clause is false: returned_on_every_exit_false, finding F4)',
+                 'nested borrowing from a borrowed share is covered by the machine correspondence and the assert in borrow(), not by a theorem'],
+    ),
 }
 
 #: texts for MANIFEST.json (level, note, technique, DESIGN.md section)
@@ -124,4 +135,14 @@ MANIFEST_TEXT = {
         note='trusted: Lean kernel + standard axioms; templates; CPython finalisation of abandoned async generators',
         technique='Lean 4 per-consumer refinement invariant + exact whole-machine differential traces + Lean trace judge',
         design_ref='6 (C11), 3, 4.B'),
+    'C12': dict(
+        level='Lean 4 theorems over an open model of the borrow protocol for every sequence of request/acquire/insert/release/abort/'
+              'increase/decrease actions: never_negative (vector levels, guard and debit in one step), borrow_atomic, claim_never_waits, '
+              'conservation (available = supply - everything acquiring/held/releasing/leaked), available_le_supply; the clause '
+              '"returned on every exit route" is proved false on the unchanged code (returned_on_every_exit_false, finding F4) and kept '
+              'as returned_on_every_exit_partial. Tied to resource.py by regenerated templates; exact whole-machine correspondence with '
+              'faults injected inside acquire/release; Lean judge (levels >= 0, claims never wait, conservation at quiescence).',
+        note='trusted: Lean kernel + standard axioms; templates; integer amounts; known finding F4 listed in KNOWN_FINDINGS.json',
+        technique='Lean 4 invariant/refinement proof over all action sequences + exact whole-machine differential traces + Lean trace judge',
+        design_ref='6 (C12), 7 (F4), 3, 4.B'),
 }
